@@ -12,14 +12,24 @@
       zero-cost edits skipped), the root edit's own cost, and `edited_cost()` of the annotated root (which sums the
       root's edit list = the root edit) are the same number.
 
-  No hypotheses: holds for all options, all oracle answers (the assignment solver's recorded matchings), all trees.
+  These two are statements about the L2 SCRIPT and need no hypothesis (all options, every oracle answer — the
+  assignment solver's recorded matchings are sanitised —, all trees).  What they do NOT say by themselves: for the
+  compound kinds kvp / fixed / ms / fk the script's cost is produced by `mkCompound`, i.e. it is the sum BY DEFINITION;
+  only `ed` (EditDistance) and `str` (StringEdit) carry an independently computed total (`solve_total_eq_sum`).
+  That the number the ENGINE reports for a compound edit (`bounds()` after tightening: matcher bounds + automatic pairs
+  + left-overs for MultiSetEdit, …) is this sum is `C03.engine_reported_eq_sum_docs` (Props/C03l.lean), obtained from
+  `C05.history_independent_docs` — and that link DOES have hypotheses: `OrcFull` (every recorded solver answer has full
+  size; with a short answer L2's script still sums up while the machine stops with `Err.oracle`), distinct keys, `fkOK`
+  without key edits (D24).  The link is NOT `C05.mkEdit_refines_L2` (a ghost identity that holds for every oracle and
+  says nothing about `bounds()`).
 -/
 import GtModel.Proofs.EditsCost
 
 namespace GtModel.C03
 open GtModel
 
-/-- C03(a) -/
+/-- C03(a) for the L2 script (no hypothesis; for kvp / fixed / ms / fk nodes the cost is `mkCompound`'s sum by
+    definition, for ed / str it is the matrix total; the engine-level statement is `engine_reported_eq_sum_docs`) -/
 theorem reported_eq_sum (o : Opts) (orc : Oracle) (fp tp : List Nat) (f t : Tree) :
     (edits o orc fp tp f t).CostOK :=
   costOK_edits o orc f fp tp t
@@ -31,7 +41,9 @@ theorem reported_eq_sum_root (o : Opts) (orc : Oracle) (fp tp : List Nat) (f t :
   have := (Script.costOK_iff _).1 (reported_eq_sum o orc fp tp f t)
   simpa [h] using this.1
 
-/-- C03(b) -/
+/-- C03(b) for the L2 script: `flatSum` is a second traversal of the same script value and `editedCost s` is `s.cost`
+    by definition; the three REAL views (`edited_cost()`, Σ `get_all_edits()`, `bounds()`) are compared by the
+    streams' monitors, and `bounds()` after any run is tied to `s.cost` by `engine_reported_eq_sum_docs` -/
 theorem three_views_agree (o : Opts) (orc : Oracle) (fp tp : List Nat) (f t : Tree) :
     flatSum (edits o orc fp tp f t) = (edits o orc fp tp f t).cost ∧
     editedCost (edits o orc fp tp f t) = (edits o orc fp tp f t).cost :=
